@@ -1,8 +1,13 @@
 import Cello.Cmp
 import CelloGen.Cmp
+import CelloGen.CmpLoops
 import Driver.Common
 /- driver for engine `cmp` (C09).  Op file (values are prefix terms, one token each, see harness/h_cmp.c):
      cmp  <A> <B>          sign of cmp(A,B) and cmp(B,A) and the six predicates, as GENERATED from src/Cmp.c
+     lcmp <A> <B>          one direction only: sign of cmp(A,B) and the six predicates
+     `&n <term>` names the object built from <term>, `*n` is that object again (one object in two Tuple slots, in both
+     operands, as both operands); the loops are run on the object graph (`objCmpF`) under the traversal discipline read
+     off the source (`CelloGen.CmpLoops.sourceDiscipline`); `H` = the loops do not come to an end
      tri  <A> <B> <C>      the six signs among three values
      keys <v1> … <vn>      scalars of one kind set into a Tree and a Table with value = index; iteration order, lookups
      sort <v1> … <vn>      scalars of one kind pushed into an Array and sorted
@@ -44,59 +49,112 @@ def parseDec64 (s : String) : Option (BitVec 64) :=
 
 def ops : CelloGen.Cmp.FloatOps UInt64 := hwFloatOps
 
+/-- the traversal discipline of the comparison loops, as read off the source that is in /repo now -/
+def disc : CelloGen.Cmp.Discipline := CelloGen.CmpLoops.sourceDiscipline
+
 def maxCount : Nat := 4096
+def maxName : Nat := 63
+
+/-- parser state: the next fresh object identity, and the objects named so far on this line (`&n`) -/
+structure PState where
+  next : Nat := 0
+  named : List (Nat × Slot) := []
+
+def parseName (cs : List Char) : Option Nat :=
+  if cs.isEmpty || cs.length > 2 || !cs.all Char.isDigit then none else
+  match (String.ofList cs).toNat? with
+  | some n => if n ≤ maxName then some n else none
+  | none => none
+
+def pairUp : List Val → List (Val × Val)
+  | a :: b :: tl => (a, b) :: pairUp tl
+  | _ => []
 
 mutual
-partial def parseVal (toks : List String) : Option (Val × List String) :=
+/-- one value term -> the object (with its identity), the new state, the remaining tokens.
+    `&n <term>` names the object built from <term>; `*n` is THAT object again (same identity): in two slots of a Tuple,
+    in both operands, or as both operands.  A name can be used only after its term is complete (no cycles). -/
+partial def parseObj (st : PState) (toks : List String) : Option (Slot × PState × List String) :=
   match toks with
   | [] => none
   | t :: rest =>
     let cs := t.toList
+    let fresh (o : Obj) (st : PState) (rest : List String) : Option (Slot × PState × List String) :=
+      some ((st.next, o), { st with next := st.next + 1 }, rest)
     match cs with
-    | 'i' :: _ => (parseDec64 (t.drop 1).toString).map (fun v => (.int v, rest))
-    | 'f' :: h => (parseHex64 h).map (fun b => (.flt b, rest))
+    | '&' :: n => match parseName n with
+      | some k =>
+        if st.named.any (·.1 == k) then none else
+        match parseObj st rest with
+        | some (slot, st', rest') =>
+          if st'.named.any (·.1 == k) then none else some (slot, { st' with named := (k, slot) :: st'.named }, rest')
+        | none => none
+      | none => none
+    | '*' :: n => match parseName n with
+      | some k => match st.named.find? (·.1 == k) with
+        | some (_, slot) => some (slot, st, rest)
+        | none => none
+      | none => none
+    | 'i' :: _ => match parseDec64 (t.drop 1).toString with
+      | some v => fresh (.val (.int v)) st rest
+      | none => none
+    | 'f' :: h => match parseHex64 h with
+      | some b => fresh (.val (.flt b)) st rest
+      | none => none
     | 's' :: h => match parseHexBytes h with
-      | some bs => if bs.contains 0 then none else some (.str bs, rest)
+      | some bs => if bs.contains 0 then none else fresh (.val (.str bs)) st rest
       | none => none
     | 't' :: n => let name := String.ofList n
-      if typeNames.contains name then some (.typ name.toUTF8.toList, rest) else none
+      if typeNames.contains name then fresh (.val (.typ name.toUTF8.toList)) st rest else none
     | 'p' :: d :: ':' :: h => match parseHexBytes h with
-      | some bs => if '0' ≤ d ∧ d ≤ '9' then some (.plain (d.toNat - '0'.toNat) bs, rest) else none
+      | some bs => if '0' ≤ d ∧ d ≤ '9' then fresh (.val (.plain (d.toNat - '0'.toNat) bs)) st rest else none
       | none => none
-    | 'A' :: n => parseSeq .array (String.ofList n) rest
-    | 'L' :: n => parseSeq .list (String.ofList n) rest
-    | 'T' :: n => parseSeq .tuple (String.ofList n) rest
-    | 'R' :: n => match (String.ofList n).toNat? with
-      | some k => if k > maxCount || n.isEmpty || !n.all Char.isDigit then none else
-        match parseMany (2 * k) rest [] with
-        | some (vs, rest') =>
-          let rec pairUp : List Val → List (Val × Val)
-            | a :: b :: tl => (a, b) :: pairUp tl
-            | _ => []
+    | 'A' :: n => match parseCount n with
+      | some cnt => match parseMany cnt st rest [] with
+        | some (slots, st', rest') => fresh (.val (.seq .array (contents slots))) st' rest'     -- an Array holds copies
+        | none => none
+      | none => none
+    | 'L' :: n => match parseCount n with
+      | some cnt => match parseMany cnt st rest [] with
+        | some (slots, st', rest') => fresh (.val (.seq .list (contents slots))) st' rest'      -- a List holds copies
+        | none => none
+      | none => none
+    | 'T' :: n => match parseCount n with
+      | some cnt => match parseMany cnt st rest [] with
+        | some (slots, st', rest') => fresh (.tuple slots) st' rest'                            -- a Tuple holds the references
+        | none => none
+      | none => none
+    | 'R' :: n => match parseCount n with
+      | some cnt => match parseMany (2 * cnt) st rest [] with
+        | some (slots, st', rest') =>
           -- the validity rule is evaluated on the entries as written (the harness does the same), then the Tree is built
-          if (Val.tree (pairUp vs)).valid then some (.tree (treeOf (valCmp ops) (pairUp vs)), rest') else none
+          let kvs := pairUp (contents slots)
+          if (Val.tree kvs).valid then fresh (.val (.tree (treeOf (valCmp ops) kvs))) st' rest' else none
         | none => none
       | none => none
     | _ => none
-partial def parseSeq (k : SeqKind) (n : String) (rest : List String) : Option (Val × List String) :=
-  match n.toNat? with
-  | some cnt => if cnt > maxCount || n.isEmpty || !n.toList.all Char.isDigit then none else
-    (parseMany cnt rest []).map (fun (vs, rest') => (.seq k vs, rest'))
+partial def parseCount (n : List Char) : Option Nat :=
+  match (String.ofList n).toNat? with
+  | some cnt => if cnt > maxCount || n.isEmpty || !n.all Char.isDigit then none else some cnt
   | none => none
-partial def parseMany (n : Nat) (toks : List String) (acc : List Val) : Option (List Val × List String) :=
-  if n = 0 then some (acc.reverse, toks) else
-  match parseVal toks with
-  | some (v, rest) => parseMany (n - 1) rest (v :: acc)
+partial def parseMany (n : Nat) (st : PState) (toks : List String) (acc : List Slot) : Option (List Slot × PState × List String) :=
+  if n = 0 then some (acc.reverse, st, toks) else
+  match parseObj st toks with
+  | some (slot, st', rest) => parseMany (n - 1) st' rest (slot :: acc)
   | none => none
 end
 
-/-- all remaining tokens as values -/
-partial def parseAll (toks : List String) (acc : List Val) : Option (List Val) :=
+/-- all remaining tokens as objects -/
+partial def parseAllObj (st : PState) (toks : List String) (acc : List Slot) : Option (List Slot) :=
   match toks with
   | [] => some acc.reverse
-  | _ => match parseVal toks with
-    | some (v, rest) => parseAll rest (v :: acc)
+  | _ => match parseObj st toks with
+    | some (slot, st', rest) => parseAllObj st' rest (slot :: acc)
     | none => none
+
+/-- … and their values (keys / sort work on scalars: identity plays no role, the containers take copies) -/
+def parseAll (toks : List String) (_acc : List Val) : Option (List Val) :=
+  (parseAllObj {} toks []).map contents
 
 def b2s (b : Bool) : String := if b then "1" else "0"
 
@@ -130,16 +188,66 @@ partial def refLex : List Val → List Val → Int
   | x :: xs, y :: ys => let r := refCmp x y; if r ≠ 0 then r else refLex xs ys
 end
 
-def doCmp (a b : Val) : IO Unit := do
-  match cmpTop ops a b, cmpTop ops b a with
-  | .ok c, .ok rc =>
+/-- sign of a comparison, `H` when the loops do not come to an end -/
+def showSign : Option Int → String
+  | some c => toString (sgn c)
+  | none => "H"
+
+/-- `cmp` as a total function for the generated predicates (they are only evaluated when the comparison has a value) -/
+def cf (x y : Obj) : Int := match cmpObj disc ops x y with | some (.ok c) => c | _ => 0
+
+def predsText (a b : Obj) (hang : Bool) : String :=
+  if hang then "eq=H neq=H gt=H lt=H ge=H le=H" else
+  s!"eq={b2s (CelloGen.Cmp.eq cf a b)} neq={b2s (CelloGen.Cmp.neq cf a b)} gt={b2s (CelloGen.Cmp.gt cf a b)} lt={b2s (CelloGen.Cmp.lt cf a b)} ge={b2s (CelloGen.Cmp.ge cf a b)} le={b2s (CelloGen.Cmp.le cf a b)}"
+
+def resSign : Option Res → Option Int
+  | some (.ok c) => some c
+  | _ => none
+
+def isExc : Option Res → Bool
+  | some (.exc _) => true
+  | _ => false
+
+def showRes : Option Res → String
+  | some (.ok c) => toString (sgn c)
+  | some (.exc n) => n
+  | none => "H"
+
+/-- may the pair be compared?  Position by position both must be of one kind (`comparable`); where one of two sequences is a
+    Tuple that holds an object twice an identity walk can bring ANY element of the one against ANY element of the other, so
+    all of those pairs must be of one kind (the same rule is implemented in harness/h_cmp.c `ok_pair`) -/
+partial def okPair (a b : Obj) : Bool :=
+  match a.seqView, b.seqView with
+  | some (_, s0), some (_, s1) =>
+    if !(idsNodup s0) || !(idsNodup s1) then s0.all fun x => s1.all fun y => okPair x.2 y.2
+    else okZip s0 s1
+  | none, none => comparable a.content b.content
+  | _, _ => false
+where
+  okZip : List Slot → List Slot → Bool
+    | x :: xs, y :: ys => okPair x.2 y.2 && okZip xs ys
+    | _, _ => true
+
+def runnableObj (a b : Obj) : Bool :=
+  a.content.valid && b.content.valid && (okPair a b || (a.content.ctype == 4 && b.content.ctype == 4))
+
+def doCmp (a b : Obj) : IO Unit := do
+  let r1 := cmpObj disc ops a b
+  let r2 := cmpObj disc ops b a
+  if isExc r1 || isExc r2 then
+    IO.println s!"O cmp exc={showRes r1} rexc={showRes r2}"
+  else
     -- the predicates are the generated definitions applied to the model's cmp (sign-preserving: they only test against 0)
-    let cf : Val → Val → Int := fun x y => match cmpTop ops x y with | .ok c => c | .exc _ => 0
-    IO.println s!"O cmp s={sgn c} rs={sgn rc} eq={b2s (CelloGen.Cmp.eq cf a b)} neq={b2s (CelloGen.Cmp.neq cf a b)} gt={b2s (CelloGen.Cmp.gt cf a b)} lt={b2s (CelloGen.Cmp.lt cf a b)} ge={b2s (CelloGen.Cmp.ge cf a b)} le={b2s (CelloGen.Cmp.le cf a b)}"
-    IO.println s!"R cmp s={refCmp a b} rs={refCmp b a}"
-  | r1, r2 =>
-    let sh : Res → String := fun r => match r with | .ok c => toString (sgn c) | .exc n => n
-    IO.println s!"O cmp exc={sh r1} rexc={sh r2}"
+    IO.println s!"O cmp s={showSign (resSign r1)} rs={showSign (resSign r2)} {predsText a b r1.isNone}"
+    IO.println s!"R cmp s={refCmp a.content b.content} rs={refCmp b.content a.content}"
+
+def doLcmp (a b : Obj) : IO Unit := do
+  let r1 := cmpObj disc ops a b
+  if isExc r1 then
+    IO.println s!"O lcmp exc={showRes r1}"
+  else
+    IO.println s!"O lcmp s={showSign (resSign r1)} {predsText a b r1.isNone}"
+    IO.println s!"R lcmp s={refCmp a.content b.content}"
 
 def sameScalarKind (vs : List Val) : Bool :=
   vs.all (fun v => v.valid && v.ctype ≤ 2) && allSame (vs.map Val.ctype)
@@ -150,15 +258,20 @@ def main (args : List String) : IO Unit := do
     if Driver.isSkippable l then continue
     match Driver.words l with
     | "cmp" :: rest =>
-      match parseAll rest [] with
-      | some [a, b] => if runnable a b then doCmp a b else IO.println "O bad-op"
+      match parseAllObj {} rest [] with
+      | some [(_, a), (_, b)] => if runnableObj a b then doCmp a b else IO.println "O bad-op"
+      | _ => IO.println "O bad-op"
+    | "lcmp" :: rest =>
+      match parseAllObj {} rest [] with
+      | some [(_, a), (_, b)] => if runnableObj a b then doLcmp a b else IO.println "O bad-op"
       | _ => IO.println "O bad-op"
     | "tri" :: rest =>
-      match parseAll rest [] with
-      | some [a, b, c] =>
-        if a.valid && b.valid && c.valid && comparable a b && comparable b c && comparable a c then
-          let s := fun x y => sgn (valCmp ops x y)
-          IO.println s!"O tri ab={s a b} ba={s b a} bc={s b c} cb={s c b} ac={s a c} ca={s c a}"
+      match parseAllObj {} rest [] with
+      | some [(_, oa), (_, ob), (_, oc)] =>
+        let a := oa.content; let b := ob.content; let c := oc.content
+        if a.valid && b.valid && c.valid && okPair oa ob && okPair ob oc && okPair oa oc then
+          let s := fun x y => showSign (objCmpF disc ops (fuelFor x y) x y)
+          IO.println s!"O tri ab={s oa ob} ba={s ob oa} bc={s ob oc} cb={s oc ob} ac={s oa oc} ca={s oc oa}"
           IO.println s!"R tri ab={refCmp a b} ba={refCmp b a} bc={refCmp b c} cb={refCmp c b} ac={refCmp a c} ca={refCmp c a}"
         else IO.println "O bad-op"
       | _ => IO.println "O bad-op"
